@@ -12,6 +12,7 @@ import (
 	"net/url"
 	"strings"
 	"testing"
+	"time"
 
 	"github.com/ory/fosite"
 	"github.com/ory/fosite/compose"
@@ -129,11 +130,30 @@ func TestC06_HMACLayer(t *testing.T) {
 			short = rapid.SliceOfN(rapid.Byte(), 0, 31).Draw(rt, "shortGlobal")
 			c.global = short
 		} else if shortAt < nrot {
-			short = rapid.SliceOfN(rapid.Byte(), 1, 31).Draw(rt, "shortRotated")
+			short = rapid.SliceOfN(rapid.Byte(), 0, 31).Draw(rt, "shortRotated")
 			c.rotated[shortAt] = short
+		}
+		onlyEmpty := false
+		if rapid.IntRange(0, 9).Draw(rt, "onlyEmptySecrets") == 0 {
+			// an instance whose secrets are all unset / empty must not accept anything
+			c.global = nil
+			c.rotated = nil
+			for i, n := 0, rapid.IntRange(0, 3).Draw(rt, "nEmptyRotated"); i < n; i++ {
+				if rapid.Bool().Draw(rt, "nilEntry") {
+					c.rotated = append(c.rotated, nil)
+				} else {
+					c.rotated = append(c.rotated, []byte{})
+				}
+			}
+			nrot = len(c.rotated)
+			short, shortAt = []byte{}, -1
+			onlyEmpty = true
 		}
 		// which secret mints
 		rel := rapid.SampledFrom([]string{"current", "current", "rotated", "foreign", "same-first-32", "short-padded"}).Draw(rt, "mintedUnder")
+		if onlyEmpty {
+			rel = rapid.SampledFrom([]string{"foreign", "short-padded"}).Draw(rt, "mintedUnderForEmptyConfig")
+		}
 		var mintSecret []byte
 		switch rel {
 		case "current":
@@ -284,7 +304,14 @@ func TestC06_EndToEnd(t *testing.T) {
 		oldSecret := []byte("old-global-secret-0123456789-0123456789-xyz")
 		newSecret := []byte("new-global-secret-0123456789-0123456789-abc")
 		store := rapid.SampledFrom([]string{"mem", "tx"}).Draw(rt, "store")
-		w := h.NewWorld(h.Spec{Store: store, RefreshScopes: []string{}, Mutate: func(c *fosite.Config) { c.GlobalSecret = oldSecret }})
+		rtLife := rapid.SampledFrom([]int{0, 0, -1, 3600}).Draw(rt, "refreshLifespan")
+		w := h.NewWorld(h.Spec{Store: store, RefreshScopes: []string{}, Mutate: func(c *fosite.Config) {
+			c.GlobalSecret = oldSecret
+			c.RefreshTokenLifespan = time.Duration(rtLife) * time.Second
+			if rtLife < 0 {
+				c.RefreshTokenLifespan = -1
+			}
+		}})
 		cl := stdClient("A", false)
 		cl.Secret = w.HashSecret("sA")
 		w.AddClient(cl, "sA")
